@@ -78,8 +78,8 @@ impl Prop for Threads {
 
     fn runs(&self, tier: Tier) -> u64 {
         match tier {
-            Tier::Quick => 6000,
-            Tier::Thorough => 120_000,
+            Tier::Quick => if self.sampled { 200_000 } else { 300_000 },
+            Tier::Thorough => if self.sampled { 4_000_000 } else { 6_000_000 },
         }
     }
 
